@@ -24,6 +24,7 @@ func c18(r *core.Report) {
 	c18Rec(r)
 	c18Dominance(r)
 	c18PtrNull(r)
+	c18Order(r)
 }
 
 // kind ranges: what encoding/json can emit for a value of the kind (as numbers).
@@ -806,6 +807,118 @@ func c18PtrNull(r *core.Report) {
 		}
 		if n == 0 {
 			core.Fail("no pointer-stripping site found in the schema-producing functions of openapi3gen")
+		}
+	})
+}
+
+// c18Order: two more necessary conditions of field resolution and of nullability.
+func c18Order(r *core.Report) {
+	p := r.Prog
+	info := p.Pkg("openapi3gen").TypesInfo
+	r.RunRule("C18.precedence", "nesting depth takes precedence over the tag when fields share a JSON name (encoding/json: the least nested field wins, the tag only breaks ties): in the function that orders collected fields by depth, every return that looks at a boolean field of the field info (named-by-tag) is reached only where the two depths were compared equal", 1, func() {
+		n := 0
+		for _, d := range p.AllDecls("openapi3gen") {
+			if d.Body == nil {
+				continue
+			}
+			// does it order two index-path lengths?
+			hasDepth := false
+			ast.Inspect(d.Body, func(nd ast.Node) bool {
+				if be, ok := nd.(*ast.BinaryExpr); ok && (be.Op == token.LSS || be.Op == token.GTR) {
+					if strings.HasPrefix(core.ExprStr(be.X), "len(") && strings.HasPrefix(core.ExprStr(be.Y), "len(") && strings.Contains(core.ExprStr(be.X), ".Index") {
+						hasDepth = true
+					}
+				}
+				return true
+			})
+			if !hasDepth {
+				continue
+			}
+			k := 0
+			ast.Inspect(d.Body, func(nd ast.Node) bool {
+				ret, ok := nd.(*ast.ReturnStmt)
+				if !ok || len(ret.Results) != 1 {
+					return true
+				}
+				// mentions a bool field of a struct value
+				usesFlag := false
+				ast.Inspect(ret.Results[0], func(m ast.Node) bool {
+					if sel, ok := m.(*ast.SelectorExpr); ok {
+						if f := core.FieldSel(info, sel); f != nil {
+							if b, ok := f.Type().Underlying().(*types.Basic); ok && b.Kind() == types.Bool {
+								usesFlag = true
+							}
+						}
+					}
+					return true
+				})
+				if !usesFlag {
+					return true
+				}
+				n++
+				k++
+				key := fmt.Sprintf("precedence:%s#%d", core.FuncName(d), k)
+				depthsEqual := false
+				for _, a := range core.Atoms(core.GuardsAt(info, d.Body, ret)) {
+					be, ok := ast.Unparen(a.Expr).(*ast.BinaryExpr)
+					if !ok {
+						continue
+					}
+					xs, ys := core.ExprStr(be.X), core.ExprStr(be.Y)
+					if strings.HasPrefix(xs, "len(") && strings.HasPrefix(ys, "len(") && strings.Contains(xs, ".Index") {
+						if (be.Op == token.NEQ && !a.Pos) || (be.Op == token.EQL && a.Pos) {
+							depthsEqual = true
+						}
+					}
+				}
+				if depthsEqual {
+					r.OK(key, p.Pos(ret.Pos()), "the tag decides only between fields of equal depth")
+				} else {
+					r.Bad(key, p.Pos(ret.Pos()), fmt.Sprintf("`return %s` lets the named-by-tag flag decide the order of two same-named fields without their depths having been found equal: a deeper embedded field that is named by its tag then wins over the shallower field encoding/json encodes", core.ExprStr(ret.Results[0])))
+				}
+				return true
+			})
+		}
+		if n == 0 {
+			core.Fail("no return using the named-by-tag flag found in the function that orders fields by depth")
+		}
+	})
+	r.RunRule("C18.cachekey", "the generator's memo of finished schemas is keyed by the exact type it was asked for: every index of a map keyed by reflect.Type in openapi3gen that holds *SchemaRef values uses the function's unmodified reflect.Type parameter — *T and T differ in nullability, so a key from which the pointer was stripped hands one of them the other's schema", 2, func() {
+		k := 0
+		for _, d := range p.AllDecls("openapi3gen") {
+			if d.Body == nil {
+				continue
+			}
+			ff := core.NewFuncFacts(p, info, d)
+			ast.Inspect(d.Body, func(nd ast.Node) bool {
+				ix, ok := nd.(*ast.IndexExpr)
+				if !ok {
+					return true
+				}
+				mt, ok := info.TypeOf(ix.X).Underlying().(*types.Map)
+				if !ok || mt.Key().String() != "reflect.Type" {
+					return true
+				}
+				if nn := core.NamedOf(mt.Elem()); nn == nil || nn.Obj().Name() != "SchemaRef" {
+					return true
+				}
+				k++
+				key := fmt.Sprintf("cachekey:%s#%d", core.FuncName(d), k)
+				id, isID := ast.Unparen(ix.Index).(*ast.Ident)
+				good := false
+				if isID {
+					o := info.ObjectOf(id)
+					if isParamOf(d, info, o) && len(ff.Assigns(o)) == 0 {
+						good = true
+					}
+				}
+				if good {
+					r.OK(key, p.Pos(ix.Pos()), "keyed by the type parameter as given")
+				} else {
+					r.Bad(key, p.Pos(ix.Pos()), fmt.Sprintf("the memo is indexed with %s, not with the reflect.Type the function was given: a pointer type and its element type then share one entry, and whichever was generated first decides `nullable` for both (a nil pointer field is rejected after a by-value use of the same struct)", core.ExprStr(ix.Index)))
+				}
+				return true
+			})
 		}
 	})
 }
